@@ -632,15 +632,15 @@ Proof. vm_compute. split; reflexivity. Qed.
 (* replay model: the three kinds of prediction occur *)
 Definition ex_rcfg : rcfg := mkR true true false false false false.
 Definition ex_hist : list rop :=
-  [RReq (mkReq 0 false 7 1 1);      (* cached Check: allowed, stored *)
+  [RReq (mkReq 0 false 7 1 1 []);      (* cached Check: allowed, stored *)
    RWrite;                          (* the tuple is deleted *)
-   RReq (mkReq 0 false 7 0 1);      (* cached Check: top-level hit, stale `allowed` is what the code returns *)
-   RReq (mkReq 0 false 8 0 1);      (* another cached Check after the write: sub-caches may be stale *)
-   RReq (mkReq 0 true 7 0 0);       (* HIGHER_CONSISTENCY: must be the reference answer; refreshes *)
-   RReq (mkReq 0 false 7 0 0)].     (* cached Check after the refresh: the refreshed entry *)
+   RReq (mkReq 0 false 7 0 1 []);      (* cached Check: top-level hit, stale `allowed` is what the code returns *)
+   RReq (mkReq 0 false 8 0 1 []);      (* another cached Check after the write: sub-caches may be stale *)
+   RReq (mkReq 0 true 7 0 0 []);       (* HIGHER_CONSISTENCY: must be the reference answer; refreshes *)
+   RReq (mkReq 0 false 7 0 0 [])].     (* cached Check after the refresh: the refreshed entry *)
 
 Lemma ex_replay :
   map snd (predictions ex_rcfg rs0 ex_hist) = [PExact 1; PExact 1; PAnyAnswer; PExact 0; PExact 0]%N /\
   replay ex_rcfg rs0 ex_hist = [0; 0; 0; 0; 0]%N /\
-  replay ex_rcfg rs0 [RReq (mkReq 0 false 7 1 1); RWrite; RReq (mkReq 0 true 7 0 1)] = [0; 2]%N.
+  replay ex_rcfg rs0 [RReq (mkReq 0 false 7 1 1 []); RWrite; RReq (mkReq 0 true 7 0 1 [])] = [0; 2]%N.
 Proof. vm_compute. repeat split; reflexivity. Qed.
